@@ -20,6 +20,8 @@ def go_type_value(t):
     """what BuildPropertyField records as TypeValue for the type text"""
     if t.startswith("func"):
         return "func"
+    if t.startswith("interface{"):
+        return "interface{}"
     if t.startswith("[]"):
         return t[2:]
     if t.startswith("*"):
@@ -342,7 +344,25 @@ def gen(rng, tier):
                 truth[p] = tr
             if lang == "py" and rng.random() < 0.3:
                 files["tools/gen.go"] = "package tools\n\nfunc Gen() {}\n"      # a Go file in a Python project: not a Python module
-            sh.append({"op": lang, "files": files, "truth": truth})
+            case = {"op": lang, "files": files, "truth": truth}
+            if lang == "go" and rng.random() < 0.15:
+                # anonymous (non-empty) interface types in signatures, after the declarations: outside the Lean model (the code lists
+                # them under a neighbouring identifier, which the statement does not cover), but the DECLARED structs, interfaces
+                # and functions of the file must still be listed exactly - judged by the oracle only
+                p = rng.choice(sorted(files))
+                extra, tr = [], truth[p]
+                for j in range(rng.choice([1, 2])):
+                    kind = rng.choice(["param", "result", "both"])
+                    ps = [(["h"], "interface{ Handle(req string) }")] if kind in ("param", "both") else []
+                    if rng.random() < 0.5:
+                        ps.append((["n"], "int"))
+                    res = " interface{ Close() error }" if kind in ("result", "both") else ""
+                    name = "Extra%d" % j
+                    extra.append("func %s(%s)%s {%s}\n" % (name, render_groups(ps), res, " return nil " if res else ""))
+                    tr["funcs"].append({"name": name, "params": ps, "results": res, "body": [], "calls": [], "stmts": []})
+                files[p] = files[p] + "\n" + "\n".join(extra)
+                case["unmodelled"] = True
+            sh.append(case)
         shards.append(sh)
     # real-world sources, when they are on this machine (the Go toolchain's own source tree in the module cache, the Python
     # standard library): only "no crash on a file the parser accepts" is judged for them
@@ -520,6 +540,8 @@ def vfns(fs):
 def view(o):
     if isinstance(o, dict) and "corpus" in o:
         return {"corpus": True}
+    if isinstance(o, dict) and "unmodelled" in o:
+        return {"unmodelled": True}
     return view_(o)
 
 
